@@ -23,8 +23,20 @@ def msg(fields, presence, flag):
     return b''.join(fields[i] for i in range(8) if presence >> i & 1 and not flag >> i & 1)
 
 
-def cache_for(fields, presence):
-    return {NAMES[i]: fields[i] for i in range(8) if presence >> i & 1}
+def cache_for(fields, presence, order=0):
+    """order 0: ascending insertion; 1: descending; 2: rotated and interleaved with unrelated embedder keys
+    (the message order is the field index order whatever order the embedder filled the dict in)"""
+    idx = [i for i in range(8) if presence >> i & 1]
+    if order == 1:
+        idx = idx[::-1]
+    elif order == 2:
+        idx = idx[len(idx) // 2:] + idx[:len(idx) // 2]
+        out = {'zeta': b'z'}
+        for i in idx:
+            out[NAMES[i]] = fields[i]
+            out['other%d' % i] = b'o'
+        return out
+    return {NAMES[i]: fields[i] for i in idx}
 
 
 def keyseed(seed, k):
@@ -94,8 +106,8 @@ def blockB(ctx, case):
         fields = [b'' if i % 3 == 0 else f for i, f in enumerate(fields)]
     ks = keyseed(seed, 1)
     pk = refed.public_key(ks)
-    cache = cache_for(fields, presence)
-    for flag in range(256):
+    cache = cache_for(fields, presence, {2: 1, 3: 2}.get(variant, 0))
+    for flag in (range(256) if variant < 2 else (0x00, 0x01, 0x0f, 0x55, 0xaa, 0x80, 0xfe)):
         ctx.evaluations += 1
         ctx.state(('B', presence, flag, variant))
         m = msg(fields, presence, flag)
@@ -304,7 +316,7 @@ def blocks(tier, seed):
     else:
         masks = list(range(256))
     A = [(flag, masks) for flag in range(256)] if q else [(flag, masks, k) for flag in range(256) for k in range(3)]
-    B = [(presence, v) for presence in range(256) for v in ((0,) if q else (0, 1))]
+    B = [(presence, v) for presence in range(256) for v in ((0, 2, 3) if q else (0, 1, 2, 3))]
     if q:
         C = [(0, f, pr, part) for (f, pr) in ((0, 0xff), (0xa5, 0x7e)) for part in ('key', 'sig', 'fields')]
     else:
@@ -313,7 +325,7 @@ def blocks(tier, seed):
     D = [(k, ln, (ln in (32, 65) and (k == 0 or not q))) for k in range(3) for ln in MSG_LENS]
     return [
         Block('A_flag_x_allowed_matrix', A, blockA, 'all 256 flags x %d allowed masks, honest + 8 one-bit-off presentations' % len(masks)),
-        Block('B_presence_x_flag', B, blockB, 'all 256 presence subsets x all 256 flags: GET_MESSAGE, SIGN, SIGN->CHECK_SIG(_VERIFY)'),
+        Block('B_presence_x_flag', B, blockB, 'all 256 presence subsets x all 256 flags: GET_MESSAGE, SIGN, SIGN->CHECK_SIG(_VERIFY); descending / interleaved dict insertion orders x 7 flags'),
         Block('C_single_bit_corruptions', C, blockC, 'every bit of key, signature, covered and excluded fields; lengths', nshards=len(C)),
         Block('E_item_limits', [(t, l) for t in (90, 1023, 1024, 1025, 1536, 3000, 6000) for l in (100, 1024, 1025, 2048, 8192)], blockE,
               'message sizes around 1024 x stack_max_item_size in {100, 1024, 1025, 2048, 8192} x flags', nshards=35),
